@@ -1,6 +1,7 @@
 package rules
 
 import (
+	"go/types"
 	"sort"
 	"strings"
 
@@ -87,6 +88,15 @@ func (lr *lockRule) constructionPhase(o lockOwner) map[*ssa.Function]bool {
 		for _, b := range f.Blocks {
 			for _, in := range b.Instrs {
 				if al, ok := in.(*ssa.Alloc); ok && want[ir.NamedType(al.Type())] {
+					cp[f] = true
+				}
+			}
+		}
+		// constructors by signature: a function that returns the owner (or its container)
+		if f.Parent() == nil {
+			res := f.Signature.Results()
+			for i := 0; i < res.Len(); i++ {
+				if _, isPtr := res.At(i).Type().(*types.Pointer); isPtr && want[ir.NamedType(res.At(i).Type())] {
 					cp[f] = true
 				}
 			}
